@@ -458,8 +458,10 @@ func runProg(inp input, scratch string) core.Result {
 		return res
 	}
 	// the position-order assumption of the model: a dependency is parsed before its importer
+	// (the child reports the bases of the packages the asked calls name: when every call is of package b through
+	// package b - a shrunk replay - package a is not among them and nothing of a is compared with anything)
 	if p.UseB && sr.bases != nil {
-		if sr.bases[pkgPath(pkgB)] >= sr.bases[pkgPath(pkgA)] {
+		if baseA, ok := sr.bases[pkgPath(pkgA)]; ok && sr.bases[pkgPath(pkgB)] >= baseA {
 			res.GoViolations = append(res.GoViolations, "harness: file positions of package b are not below those of its importer a")
 		}
 	}
@@ -549,6 +551,7 @@ func tagsOf(p *Prog, mode string) ([]string, bool) {
 	var curF int
 	var walkE func(e *Expr)
 	var walkS func(ss []*Stmt)
+	resultNames := map[string]bool{}
 	walkE = func(e *Expr) {
 		if e == nil {
 			return
@@ -617,6 +620,13 @@ func tagsOf(p *Prog, mode string) ([]string, bool) {
 				if len(s.Lhs) > 1 && len(s.Rhs) == 1 {
 					tags["multi_value_assignment"] = true
 				}
+				if s.Tok == ":=" {
+					for _, l := range s.Lhs {
+						if resultNames[l.Src] {
+							tags["named_result_declared_again_in_inner_scope"] = true
+						}
+					}
+				}
 			case "group":
 				if s.Label && holdsReturn(s.Blocks) {
 					tags["return_under_label"] = true
@@ -637,6 +647,13 @@ func tagsOf(p *Prog, mode string) ([]string, bool) {
 		}
 	}
 	litOnly := false
+	for _, f := range p.Funcs {
+		for _, rs := range f.Res {
+			if rs.Name != "" && rs.Name != "_" {
+				resultNames[rs.Name] = true
+			}
+		}
+	}
 	for i, f := range p.Funcs {
 		curF = i
 		walkS(f.Body)
@@ -648,6 +665,20 @@ func tagsOf(p *Prog, mode string) ([]string, bool) {
 		}
 		if len(f.Res) > 0 && f.Res[0].Name != "" {
 			tags["named_results"] = true
+		}
+		for j, rs := range f.Res {
+			if rs.Name != "_" {
+				continue
+			}
+			tags["blank_named_result"] = true
+			for _, later := range f.Res[j+1:] {
+				if later.Name != "_" {
+					tags["blank_named_result_before_a_named_one"] = true
+					if hasBare(f.Body) {
+						tags["blank_named_result_before_a_named_one_bare_return"] = true
+					}
+				}
+			}
 		}
 		if len(f.Res) == 0 && !f.IsLit {
 			tags["no_results"] = true
@@ -740,6 +771,21 @@ func tagsOf(p *Prog, mode string) ([]string, bool) {
 	sort.Strings(out)
 	nontrivial := len(out) > 2
 	return out, nontrivial
+}
+
+// hasBare: the body (function literals apart) holds a bare return
+func hasBare(ss []*Stmt) bool {
+	for _, s := range ss {
+		if s.K == "return" && s.Bare {
+			return true
+		}
+		for _, b := range s.Blocks {
+			if hasBare(b) {
+				return true
+			}
+		}
+	}
+	return false
 }
 
 func holdsReturn(bs [][]*Stmt) bool {
